@@ -240,17 +240,20 @@ package simplefixgo
 // the first delimiter at or after the previous position.
 //@ ghostfield wireIn string
 //@ ghostfield rdPos int
+// srcErr(r): the connection behind r has reported an error or the end of the stream
+//@ ghostfield srcErr bool
 //@ extern bufio.NewReader(rd io.Reader) (r *bufio.Reader)
 //@   ensures r != nil && fresh(r) && wireIn(r) == wireIn(rd) && rdPos(r) == 0
 //@ extern (r *bufio.Reader) ReadBytes(delim byte) (line []byte, err error)
 //@   requires r != nil
-//@   modifies rdPos(r)
+//@   modifies rdPos(r), srcErr(r)
+//@   ensures imp(err != nil, srcErr(r))
 //@   ensures rdPos(r) == old(rdPos(r)) + len(line) && rdPos(r) <= len(wireIn(r)) && wireIn(r) == old(wireIn(r))
 //@   ensures string(line) == sub(wireIn(r), old(rdPos(r)), rdPos(r))
 //@   ensures imp(err == nil, len(line) >= 1 && code(string(line), len(line) - 1) == delim && !contains(sub(string(line), 0, len(line) - 1), chr(delim)))
 //@ extern (r *bufio.Reader) ReadSlice(delim byte) (line []byte, err error)
 //@   requires r != nil
-//@   modifies rdPos(r)
+//@   modifies rdPos(r), srcErr(r)
 //@   ensures rdPos(r) == old(rdPos(r)) + len(line) && rdPos(r) <= len(wireIn(r)) && wireIn(r) == old(wireIn(r))
 //@   ensures string(line) == sub(wireIn(r), old(rdPos(r)), rdPos(r))
 //@   ensures imp(err == nil, len(line) >= 1 && code(string(line), len(line) - 1) == delim && !contains(sub(string(line), 0, len(line) - 1), chr(delim)))
@@ -282,8 +285,9 @@ package simplefixgo
 //@     assert[C04,C18,C06,C07,C09,C10,C14,C15,C16] @eom hasPrefix(from(wireIn(r), rdPos(r) - len(buff)), "10=") && (rdPos(r) - len(buff) == 0 || code(wireIn(r), rdPos(r) - len(buff) - 1) == 1)
 //@     assert[C04,C06,C07,C09,C10,C14,C15,C16] @whole string(arg1) == sub(wireIn(r), sel(cut, rdN - 1), rdPos(r))
 //@     set cut = upd(cut, rdN, rdPos(r))
+//@   ensures[C04,C06,C07,C09,C10,C14,C15,C16] @gaveup imp(err != nil, srcErr(r))
 //@   loop 1:
-//@     modifies rdPos(r)
+//@     modifies rdPos(r), srcErr(r)
 //@     invariant[C04,C06,C07,C09,C10,C14,C15,C16] @pos 0 <= sel(cut, rdN) && sel(cut, rdN) <= rdPos(r) && rdPos(r) <= len(wireIn(r)) && rdN >= 0
 //@     invariant[C04,C06,C07,C09,C10,C14,C15,C16] @buffer string(msg) == sub(wireIn(r), sel(cut, rdN), rdPos(r))
 //@     invariant[C04,C06,C07,C09,C10,C14,C15,C16] @boundary rdPos(r) == 0 || code(wireIn(r), rdPos(r) - 1) == 1
